@@ -237,7 +237,7 @@ U("srccmp.keywrap", src="units/srccmp.c", harness="h_key_wrap", plain=True, logc
 ABS = ["contracts/abs.contracts.h"]
 U("ctx.push_evt", src="units/ctx_unit.c", harness="h_push_evt", enforce="push_evt",
   replace=["m_mem_unref", "m_queue_enqueue", "m_queue_len", "m_queue_new", "call_pubsub_cb"], logctx="CORE",
-  props=["C13", "C18", "C03", "C04"], contract_files=ABS + ["contracts/ctx.contracts.h"], native=False, timeout=600, min_obligations=30)
+  props=["C13", "C08", "C18", "C03", "C04"], contract_files=ABS + ["contracts/ctx.contracts.h"], native=False, timeout=600, min_obligations=30)
 U("ps.call_pubsub_cb", src="units/ps_unit.c", harness="h_call_pubsub_cb", enforce="call_pubsub_cb",
   replace=["m_mem_ref", "m_mem_unref", "m_queue_len", "m_queue_free", "m_stack_peek", "fs_notify", "fetch_ms", "v_on_evt", "v_become_evt"], logctx="CORE",
   props=["C17", "C04", "C15", "C02"], contract_files=ABS + ["contracts/cb.contracts.h", "contracts/ps.contracts.h"], native=False, timeout=600, min_obligations=30)
@@ -475,3 +475,48 @@ U("src.len", src="units/src_unit.c", harness="h_src_len", plain=True, logctx="CO
   unwind=10, props=["C09", "C04"], contract_files=[], native=False, timeout=300, min_obligations=5)
 U("ps.pill_real", src="units/ps_real.c", harness="h_pill_real", plain=True, logctx="CORE",
   props=["C08", "C04"], contract_files=[], native=True, timeout=300, min_obligations=20, unwind=42)
+
+# ---- texts brought up to date with the units added after the first full round -------------------------------------------------------
+def _more(pid, extra, not_decided):
+    PROPS[pid]["level_text"] += " " + extra
+    PROPS[pid]["not_decided"] = list(not_decided)
+
+
+_more("C03", "loop_start()/loop_stop() are enforced: loop_stop() returns exactly the requested quit code, sends the loop-stopped notification before its one flush pass (pending messages still "
+      "reach RUNNING modules); create_src() forces task and threshold sources one-shot.",
+      ["that epoll reports what is ready; loop termination", "m_ctx_loop_events()/m_ctx_dispatch() drivers (which of loop_start/recv_events/loop_stop is called when) are not under contract",
+       "one-shot removal branch of recv_events (unit assumes a non-one-shot fd source)", "sources destroyed by a stop/deregister in the same poll batch (dangling epoll data pointer)"])
+_more("C07", "loop_stop() performs the deferred release of a non-persistent context that lost its last module while looping; m_mod_register() registers exactly one new module under the name.",
+      ["ctx_new()/ctx_dtor() internals", "that m_map_iterate(ctx_destroy_mods) reaches every module (C05 bounded)",
+       "m_ctx_loop_events()/m_ctx_dispatch(): that every way of ending a loop goes through loop_stop()"])
+_more("C08", "m_mod_ps_poisonpill() (real ps.c + real mem.c, end to end): an accepted pill is one system message appended at the tail of its recipient's pipe, so it is handled after "
+      "everything sent earlier; a pill for a module that is not RUNNING is refused.",
+      ["process_ps() and the poison-pill branch of recv_events() (stop on reception; nothing later delivered) are not under contract", "batching + poison pill interplay (C02 lets batched messages be discarded)"])
+_more("C09", "register_mod_src()/deregister_mod_src() are enforced over an abstract keyed set (ghost 'key present'): a present key is refused with EEXIST, the candidate released, set and poll set "
+      "untouched; a new key joins the set and is polled at once iff the module is RUNNING; removal looks up exactly the caller's identifying value, succeeds iff present, ENOENT without effect "
+      "otherwise; create_src() copies the identifying value into the source. m_mod_src_len() is a BOUNDED stand-in (<= 2 sources per kind, stub iterators): the count for one kind is the size "
+      "of that kind's set, internal sources excluded.",
+      ["that the BST behind the abstract keyed set is a set for > K nodes (C11 is bounded)", "m_mod_ps_subscribe in-place update", "m_mod_src_len for more than 2 sources per kind (bounded stand-in)"])
+_more("C13", "register_mod_src() gives every source exactly one priority (the requested one, NORMAL when none; two priorities are refused without trace) and create_src() makes descriptor "
+      "sources HIGH priority whatever was asked.",
+      ["m_mod_set_batch_timeout (not under contract)", "that the kernel timer fires after the configured time"])
+_more("C15", "m_mod_register(): a live name is refused with EEXIST -- nothing deregistered, nothing created -- unless the EXISTING module allows replacement, in which case it is deregistered "
+      "first, exactly once, and a failure of that deregistration creates nothing.",
+      ["what the replaced module's deregistration does to the context when it was the last module (auto-release) is not re-checked inside m_mod_register"])
+_more("C19", "loop_start() emits exactly one loop-started notification (after the evaluation pass), loop_stop() exactly one loop-stopped notification before the final flush, process_tick() "
+      "exactly one tick per expiry; m_ctx_set_tick() always removes the previous tick source and arms a new timer with exactly the configured period (none for period 0).",
+      ["delivery of notifications follows C02", "real-time tick period (kernel timer)"])
+_more("C20", "deregister_ctx_src(): a context-level source (the tick) leaves the poll set -- which closes its timer descriptor -- whenever it is removed, in any loop state; create_src() opens no "
+      "descriptor except the duplicate asked for with M_SRC_DUP, which it marks auto-close.",
+      ["pid sources (descriptor made through variadic syscall())", "_pipe/init_pubsub_fd/poll_create/poll_destroy/m_ctx_fd not under contract",
+       "whole-program 'all closed at the end' follows from per-object ownership only by argument"])
+U("ctx.loop_events", src="units/ctx_unit.c", harness="h_loop_events", enforce="m_ctx_loop_events", loop_contracts=True, defines=["V_DRIVER_UNIT"], logctx="CORE",
+  replace=["loop_start", "loop_stop", "recv_events"], props=["C03", "C04"], contract_files=LOOPC, native=False, timeout=200, min_obligations=10, must_have=["invariant after step"])
+U("ctx.dispatch", src="units/ctx_unit.c", harness="h_dispatch", enforce="m_ctx_dispatch", defines=["V_DRIVER_UNIT"], logctx="CORE",
+  replace=["m_ctx", "loop_start", "loop_stop", "recv_events"], props=["C03", "C04"], contract_files=LOOPC, native=False, timeout=200, min_obligations=10)
+U("ctx.recv_pill_real", src="units/recv_real.c", harness="h_recv_pill_real", plain=True, replace_calls={"push_evt": "v_push"}, logctx="CORE", bounded=True,
+  bound_note="real ctx.c recv_events(), one batch of <= 3 pub/sub messages, pill at every position / absent, topics present or not; loops unwound with unwinding assertions",
+  unwind=34, props=["C08", "C01", "C04"], contract_files=[], native=False, timeout=300, min_obligations=20, cbmc_extra=["--no-propagation"])
+U("src.process_ps", src="units/src_unit.c", harness="h_process_ps", enforce="process_ps", defines=["V_PROCPS_UNIT"], logctx="CORE",
+  replace=["v_read", "m_mem_ref", "m_mem_unref"], props=["C08", "C04"], contract_files=SRCC, native=False, timeout=200, min_obligations=10)
+
